@@ -66,7 +66,107 @@ pub fn scenarios(thorough: bool) -> Vec<Scenario> {
     v
 }
 
+/// Many requests of the largest coin value against one pool in one block: n x 2^120 exceeds what a 128-bit total can hold from
+/// n = 256 on.  The requests are funded by faucets (so: any network but mainnet); the engine's conservation oracle judges the seal.
+fn many_huge_requests(run: &Run, thorough: bool) {
+    use crate::stf::*;
+    use crate::world::*;
+    use melstructs::{CoinID, Denom, PoolKey, Transaction, TxKind};
+    let big: u128 = 1 << 120;
+    let counts: Vec<usize> = if thorough { vec![255, 256, 257, 300, 600] } else { vec![255, 257, 300] };
+    for n in counts {
+        for side in [Denom::Sym, Denom::Mel] {
+            let (_w, rootn) = root(NetID::Custom02, 0, false);
+            let eng = Engine::new(run);
+            // funding: n coins of 2^120 of the sold denomination (faucets of 100 outputs) and n MEL carriers of 1
+            let mut funding: Vec<Transaction> = vec![];
+            let mut sold: Vec<CoinID> = vec![];
+            let mut carriers: Vec<CoinID> = vec![];
+            let mut left = n;
+            let mut tag = 0u8;
+            while left > 0 {
+                let k = left.min(100);
+                let f = tx_t(TxKind::Faucet, vec![], (0..k).map(|_| out_t(big, side)).collect(), 0, vec![0x6d, tag]);
+                let c = tx_t(TxKind::Faucet, vec![], (0..k).map(|_| out_t(1, Denom::Mel)).collect(), 0, vec![0x6e, tag]);
+                for i in 0..k {
+                    sold.push(f.output_coinid(i as u8));
+                    carriers.push(c.output_coinid(i as u8));
+                }
+                funding.push(f);
+                funding.push(c);
+                left -= k;
+                tag += 1;
+            }
+            let pool = PoolKey::new(Denom::Mel, Denom::Sym);
+            let swaps: Vec<Transaction> = (0..n).map(|i| tx_t(TxKind::Swap, vec![sold[i], carriers[i]], vec![out_t(big, side), out_t(1, Denom::Mel)], 0, pool.to_bytes().to_vec())).collect();
+            let label = format!("{} swaps of 2^120 {:?} into MEL/SYM", n, side);
+            let path = [
+                Action::Open,
+                Action::Batch { label: format!("{} funding faucets", funding.len()), txs: funding, expect_ok: true },
+                Action::Seal(None),
+                Action::Open,
+                Action::Batch { label: label.clone(), txs: swaps, expect_ok: true },
+                Action::Seal(None),
+            ];
+            let mut node = Some(rootn);
+            for a in &path {
+                node = match node.as_ref().map(|x| eng.step(x, a)) {
+                    Some(StepOut::Next(x)) => Some(x),
+                    _ => None,
+                };
+            }
+            run.state();
+            run.outcome(&format!("many-huge-requests:{}", if node.is_some() { "path-completed" } else { "path-stopped(engine reported or real code rejected)" }));
+        }
+        // the same number of deposits of 2^120 MEL + 2^120 SYM each, then (next block) withdrawals of all the liquidity tokens received
+        {
+            let (_w, rootn) = root(NetID::Custom02, 0, false);
+            let eng = Engine::new(run);
+            let mut funding: Vec<Transaction> = vec![];
+            let (mut mels, mut syms) = (vec![], vec![]);
+            let mut left = n;
+            let mut tag = 0u8;
+            while left > 0 {
+                let k = left.min(100);
+                let fm = tx_t(TxKind::Faucet, vec![], (0..k).map(|_| out_t(big, Denom::Mel)).collect(), 0, vec![0x70, tag]);
+                let fs = tx_t(TxKind::Faucet, vec![], (0..k).map(|_| out_t(big, Denom::Sym)).collect(), 0, vec![0x71, tag]);
+                for i in 0..k {
+                    mels.push(fm.output_coinid(i as u8));
+                    syms.push(fs.output_coinid(i as u8));
+                }
+                funding.push(fm);
+                funding.push(fs);
+                left -= k;
+                tag += 1;
+            }
+            let pool = PoolKey::new(Denom::Mel, Denom::Sym);
+            let deposits: Vec<Transaction> = (0..n).map(|i| tx_t(TxKind::LiqDeposit, vec![mels[i], syms[i]], vec![out_t(big, Denom::Mel), out_t(big, Denom::Sym)], 0, pool.to_bytes().to_vec())).collect();
+            let path = [
+                Action::Open,
+                Action::Batch { label: format!("{} funding faucets", funding.len()), txs: funding, expect_ok: true },
+                Action::Seal(None),
+                Action::Open,
+                Action::Batch { label: format!("{} deposits of 2^120 MEL + 2^120 SYM into MEL/SYM", n), txs: deposits, expect_ok: true },
+                Action::Seal(None),
+                Action::Open,
+                Action::Seal(None),
+            ];
+            let mut node = Some(rootn);
+            for a in &path {
+                node = match node.as_ref().map(|x| eng.step(x, a)) {
+                    Some(StepOut::Next(x)) => Some(x),
+                    _ => None,
+                };
+            }
+            run.state();
+            run.outcome(&format!("many-huge-deposits:{}", if node.is_some() { "path-completed" } else { "path-stopped(engine reported or real code rejected)" }));
+        }
+    }
+    run.set("many_huge_requests", json!({"value_each": "2^120", "counts": if thorough { vec![255, 256, 257, 300, 600] } else { vec![255, 257, 300] }, "pool": "MEL/SYM", "sides": ["SYM", "MEL"]}));
+}
+
 pub fn run(run: &Run) {
+    many_huge_requests(run, run.thorough());
     for sc in scenarios(run.thorough()) {
         sample_alphabet(run, &sc);
         let st = run_scenario(run, &sc, 2_000_000);
